@@ -51,7 +51,7 @@ def main(tier):
         run('asan', 'graphs-g2', **small)
         run('asan', 'faults-g2', **small)
         run('asan', 'repairs-g2', **small)
-        for fam in ('graphs-g3', 'graphs-h2', 'graphs-u3', 'graphs-e3', 'graphs-n2', 'graphs-r3', 'faults-g3', 'faults-h2', 'faults-u3', 'faults-e3', 'faults-n2', 'faults-r3', 'repairs-g3', 'repairs-n2', 'repairs-r3'):
+        for fam in ('graphs-g3', 'graphs-h2', 'graphs-u3', 'graphs-e3', 'graphs-n2', 'graphs-r3', 'faults-g3', 'faults-h2', 'faults-u3', 'faults-e3', 'faults-n2', 'faults-r3', 'repairs-g3', 'repairs-n2', 'repairs-r3', 'layouts-g2', 'layoutsq-g3'):
             run('plain', fam)
     else:
         run('asan', 'selftest')
@@ -59,7 +59,7 @@ def main(tier):
             run('asan', fam, **small)
         for fam in ('graphs-g3', 'faults-g3', 'repairs-g3'):
             run('asan', fam)
-        for fam in ('graphs-h2', 'graphs-u3', 'graphs-d3', 'graphs-e3', 'faults-h2', 'faults-u3', 'faults-d3', 'faults-e3', 'repairs-h2', 'repairs-u3', 'repairs-d3', 'repairs-e3', 'graphs-n2', 'graphs-r3', 'graphs-m2', 'graphs-n3', 'faults-n2', 'faults-r3', 'faults-m2', 'faults-n3', 'repairs-n2', 'repairs-r3', 'repairs-m2', 'repairs-n3', 'graphs-g4', 'faults-g4', 'graphs-k3', 'faults-k3'):
+        for fam in ('graphs-h2', 'graphs-u3', 'graphs-d3', 'graphs-e3', 'faults-h2', 'faults-u3', 'faults-d3', 'faults-e3', 'repairs-h2', 'repairs-u3', 'repairs-d3', 'repairs-e3', 'graphs-n2', 'graphs-r3', 'graphs-m2', 'graphs-n3', 'faults-n2', 'faults-r3', 'faults-m2', 'faults-n3', 'repairs-n2', 'repairs-r3', 'repairs-m2', 'repairs-n3', 'layouts-g2', 'layouts-q3', 'layouts-h2', 'graphs-g4', 'faults-g4', 'graphs-k3', 'faults-k3'):
             run('plain', fam)
     return c.finish(rule=RULE, assumptions=ASSUMPTIONS,
                     extra_cov={'fault_scenarios': c.counters.get('fault_scenarios', 0), 'repair_sequences': c.counters.get('repair_sequences', 0)})
